@@ -311,11 +311,14 @@ func runSchedule(in *drv.Inst, snap []vstore.KV, sc *Scenario, mode string, pref
 	select {
 	case why := <-s.finished:
 		x.abort = why
-	case <-time.After(120 * time.Second):
-		x.abort = "watchdog: the schedule did not finish within 120 s (a thread is blocked outside the scheduler's control)"
+	case <-time.After(60 * time.Second):
+		x.abort = "watchdog: the schedule did not finish within 60 s (a thread is blocked outside the scheduler's control)"
 		s.aborted = true
 	}
 	in.V.Hook, in.V.PostHook = nil, nil
+	if x.abort != "" {
+		drv.ForgetInflight(in) // the parked threads of an aborted schedule never return
+	}
 	x.points = s.points
 	for _, p := range s.points {
 		x.choices = append(x.choices, p.choice)
@@ -328,7 +331,18 @@ func runSchedule(in *drv.Inst, snap []vstore.KV, sc *Scenario, mode string, pref
 		in.V.ForgetLeaks()
 	}
 	var fs []Finding
-	x.final, fs = observeState(in)
+	doneObs := make(chan struct{})
+	go func() {
+		x.final, fs = observeState(in)
+		close(doneObs)
+	}()
+	select {
+	case <-doneObs:
+	case <-time.After(60 * time.Second):
+		x.abort = "after every thread had returned, reading the final state did not finish within 60 s: a transaction was left open below the store interface (the database is wedged)"
+		drv.ForgetInflight(in)
+		return x
+	}
 	x.finalFs = append(x.finalFs, fs...)
 	sort.SliceStable(x.hist, func(i, j int) bool { return x.hist[i].Call < x.hist[j].Call })
 	var sb strings.Builder
@@ -543,6 +557,7 @@ func SchedExplore(cfg *SchedConfig, run *ev.Run) {
 	var mu sync.Mutex
 	schedules, withPreempt, outcomes := 0, 0, map[string]bool{}
 	capped := false
+	stopped := false // an aborted schedule (deadlock, blocked thread) ends the exploration of this configuration
 	report := func(tag string, x *execution, msg string) {
 		if !cfg.Own[tag] {
 			run.Blocked(tag)
@@ -587,6 +602,9 @@ func SchedExplore(cfg *SchedConfig, run *ev.Run) {
 				tag = "harness"
 			}
 			report(tag, x, x.abort)
+			mu.Lock()
+			stopped = true
+			mu.Unlock()
 			w.in.Abandon()
 			n := drv.MustOpen(cfg.Backend)
 			n.OnOpen = pregrowIfBBolt
@@ -631,6 +649,12 @@ func SchedExplore(cfg *SchedConfig, run *ev.Run) {
 			capped = true
 			return
 		}
+		mu.Lock()
+		halt := stopped
+		mu.Unlock()
+		if halt {
+			return
+		}
 		x := runSchedule(w.in, snap, sc, cfg.Mode, prefix)
 		checkExec(w, x)
 		for i := len(prefix); i < len(x.points); i++ {
@@ -670,6 +694,9 @@ func SchedExplore(cfg *SchedConfig, run *ev.Run) {
 	run.Add("states", int64(len(outcomes)))
 	run.Add("transitions", int64(schedules))
 	run.Add("schedules_with_preemption", int64(withPreempt))
+	if stopped {
+		run.NotExhaustive(fmt.Sprintf("%s: exploration ended at the first aborted schedule (reported as a violation)", name))
+	}
 	if capped {
 		run.NotExhaustive(fmt.Sprintf("%s: time budget %s reached after %d schedules", name, cfg.Budget, schedules))
 	}
@@ -739,11 +766,12 @@ func pregrowIfBBolt(in *drv.Inst) {
 	if in.Backend != drv.BBolt {
 		return
 	}
-	in.DB.CreateCollection("__grow")
+	drv.Exec(in, m.Op{K: "createColl", Coll: "__grow"})
 	docs := []m.Doc{}
 	for i := 0; i < 400; i++ {
 		docs = append(docs, m.Doc{"_id": ID(900000 + i), "pad": strings.Repeat("x", 2000)})
 	}
 	drv.Exec(in, m.Op{K: "insert", Coll: "__grow", Docs: docs})
-	in.DB.DropCollection("__grow")
+	drv.Exec(in, m.Op{K: "dropColl", Coll: "__grow"})
+	in.V.ForgetLeaks()
 }
